@@ -37,7 +37,8 @@ type Step struct {
 	I       int    `json:"i"`
 	Keep    bool   `json:"keep"`
 	Written []int  `json:"written"`
-	K       int    `json:"k"` // setcache capacity
+	Orig    []int  `json:"orig"` // pages the specification's flush set out to write
+	K       int    `json:"k"`    // setcache capacity
 }
 
 type TabOut struct {
@@ -103,6 +104,7 @@ type Result struct {
 	Kind     string              `json:"kind,omitempty"`
 	Feat     []string            `json:"feat,omitempty"`
 	CacheFul bool                `json:"cachefull,omitempty"`
+	Extra    map[string][]int    `json:"extra,omitempty"` // crash step index -> pages the real flush wrote that the specification's flush did not
 	Graph    *Graph              `json:"graph,omitempty"`
 	Stats    map[string]int      `json:"stats,omitempty"`
 }
@@ -195,6 +197,9 @@ func bOf(v int) string {
 	}
 	if v < 0 {
 		return "rx"
+	}
+	if v == 8 {
+		return "r8" + strings.Repeat("y", 388) // the encoded row is exactly 400 bytes: the largest row the engine accepts
 	}
 	return fmt.Sprintf("r%d%s", v, strings.Repeat("y", v%6))
 }
@@ -696,6 +701,30 @@ func replay(sc Scenario) (res Result) {
 					res.Diverged = why
 					return
 				}
+				if st.Orig != nil {
+					inOrig := map[int]bool{}
+					for _, p := range st.Orig {
+						inOrig[p] = true
+					}
+					var extra []int
+					seenP := map[int]bool{}
+					for _, x := range pending.ios {
+						if x.File == "tbl" && x.Kind == "page" {
+							id := int(x.Off / 4096)
+							if !inOrig[id] && !seenP[id] {
+								seenP[id] = true
+								extra = append(extra, id)
+							}
+						}
+					}
+					if len(extra) > 0 {
+						if res.Extra == nil {
+							res.Extra = map[string][]int{}
+						}
+						sort.Ints(extra)
+						res.Extra[fmt.Sprint(i)] = extra
+					}
+				}
 				walNow := cur.wal
 				if err := writeImage(tblNow, walNow); err != nil {
 					res.Diverged = err.Error()
@@ -774,11 +803,12 @@ func replay(sc Scenario) (res Result) {
 				// the engine refused a statement the specification accepts: nothing may have changed (C14), and
 				// the rest is not a violation of any listed property
 				res.Diverged = fmt.Sprintf("statement %q returned an error (%v) where the specification succeeds", renderStmt(st), stmtErr)
-				if !inAllowed(obs, sc.Allowed) {
-					prev, okp := sc.Mid[fmt.Sprint(i)]
-					if okp && !matches(obs, prev.Abs) {
-						res.Viol = append(res.Viol, fmt.Sprintf("statement %q returned an error (%v) but changed the tables: {%s}, before {%s}", renderStmt(st), stmtErr, showObs(obs), showAbs(prev.Abs)))
-					}
+				prev, okp := sc.Mid[fmt.Sprint(i)]
+				if i == 0 {
+					prev, okp = Mid{Abs: []TabOut{}}, true
+				}
+				if okp && !matches(obs, prev.Abs) {
+					res.Viol = append(res.Viol, fmt.Sprintf("statement %q returned an error (%v) but changed the tables: {%s}, before {%s}", renderStmt(st), stmtErr, showObs(obs), showAbs(prev.Abs)))
 				}
 				if len(res.Viol) > 0 {
 					res.OK = false
